@@ -119,6 +119,49 @@ def seq_cases(rng, tier):
     return cases
 
 
+
+def MEMORY_MODULE(max_pages):
+    """`(module (memory 1 <max> shared))` as bytes"""
+    def leb(n):
+        out = bytearray()
+        while True:
+            b7 = n & 0x7f
+            n >>= 7
+            out.append(b7 | (0x80 if n else 0))
+            if not n:
+                return bytes(out)
+    body = b"\x01\x03\x01" + leb(max_pages)
+    return b"\x00asm\x01\x00\x00\x00\x05" + leb(len(body)) + body
+
+
+def translator_max(repo, d):
+    """{declared max: (allocation call text in the generated C, max passed)} for shared memories, via the real w2c2."""
+    import opmods
+    res = {}
+    try:
+        w2c2 = opmods.build_w2c2(repo, d)
+    except Exception as e:
+        return {"build": (str(e)[-200:], None)}
+    for mx in (65535, 65536):
+        wd = os.path.join(d, f"mm{mx}")
+        os.makedirs(wd, exist_ok=True)
+        with open(os.path.join(wd, "m.wasm"), "wb") as f:
+            f.write(MEMORY_MODULE(mx))
+        p = vlib.run([w2c2, "m.wasm", "m.c"], cwd=wd, timeout=60)
+        text = open(os.path.join(wd, "m.c")).read() if os.path.exists(os.path.join(wd, "m.c")) else ""
+        m = re.search(r"(WASM_MEMORY_ALLOCATE_SHARED|wasmMemoryAllocate)\s*\(([^;]*)\)\s*;", text)
+        if not m:
+            res[mx] = (f"w2c2 exit {p.returncode}: {(p.stderr or '')[-120:]}", None)
+            continue
+        args = [a.strip() for a in m.group(2).split(",")]
+        try:
+            passed = int(args[1].rstrip("uUlL"), 0)
+        except Exception:
+            passed = None
+        res[mx] = (m.group(0), passed)
+    return res
+
+
 # ----------------------------------------------------------------------------- the check
 
 def driver_lines(lines):
@@ -263,7 +306,10 @@ def run(tier):
                  "model": "Props/C18.lean grow_wrap_zero_counterexample",
                  "replay_cmd": "python3 tools/check.py C18 --replay <this file>"}, True)
 
-        # ---- (c) wasmMemoryAllocate: size of a shared memory with the legal maximum 65536
+        # ---- (c) wasmMemoryAllocate: size of a shared memory with the legal maximum 65536.
+        # The property quantifies over modules, so it is decided THROUGH the translator: translate
+        # `(memory 1 65536 shared)` with the real w2c2 and read the maximum the generated instantiation code
+        # passes to the allocator; the header function alone (an embedder calling it with 65536) is a model note.
         if exe:
             rc, out, _ = gs.run(exe, ["alloc", 1, 65536, 1])
             mout = status.get("allocsize")
@@ -271,25 +317,37 @@ def run(tier):
             m = re.match(r"size (\d+) pages (\d+) max (\d+)", out)
             if m and mout is not None and m.group(1) != mout:
                 broken.append({"kind": "correspondence", "msg": f"alloc 1 65536 1: real size {m.group(1)} model {mout}"})
-            if m and int(m.group(1)) != (65536 * 65536) and int(m.group(3)) == 65536:
-                asan_note = ""
-                try:
-                    aexe = gs.build(inc, d, "grow_asan", ["-fsanitize=address"])
-                    rc2, o2, e2 = gs.run(aexe, ["touch", 1, 65536, 1, 4096], env={"ASAN_OPTIONS": "detect_leaks=0"})
-                    mm = re.search(r"ERROR: AddressSanitizer: (\S+)", e2)
-                    asan_note = mm.group(1) if mm else f"exit {rc2}"
-                except Exception as e:
-                    asan_note = "asan build failed: " + str(e)[-100:]
-                chk.coverage["alloc_65536_asan"] = asan_note
-                chk.violation(
-                    "alloc-size-wraps-at-65536-pages",
-                    f"wasmMemoryAllocate(1, 65536, shared): `U32 size = maxPages * 65536` wraps to {m.group(1)}: the shared "
-                    f"memory is allocated with {m.group(1)} bytes although 65536 pages are reserved by contract; a store at "
-                    f"byte 4096 (inside the first page) is out of the object (ASan: {asan_note}); every grow then stays "
-                    "inside an allocation that is too small",
-                    {"harness": "tools/harness/grow_sched.c", "args": ["alloc", 1, 65536, 1], "observed": out,
-                     "asan_args": ["touch", 1, 65536, 1, 4096], "model": "Props/C18.lean alloc_size_wraps_counterexample",
-                     "replay_cmd": "python3 tools/check.py C18 --replay <this file>"}, True)
+            header_wraps = bool(m) and int(m.group(1)) != 65536 * 65536
+            via = translator_max(repo, d)
+            chk.coverage["alloc_65536"] = {"header_function_size": out, "through_w2c2": via}
+            for mx_decl, (text, mx_passed) in via.items():
+                if mx_passed is None:
+                    continue
+                rc3, out3, _ = gs.run(exe, ["alloc", 1, mx_passed, 1])
+                m3 = re.match(r"size (\d+)", out3)
+                chk.count_case(("alloc-via-w2c2", mx_decl), True, None)
+                if m3 and int(m3.group(1)) != mx_passed * 65536:
+                    asan_note = ""
+                    try:
+                        aexe = gs.build(inc, d, "grow_asan", ["-fsanitize=address"])
+                        rc2, o2, e2 = gs.run(aexe, ["touch", 1, mx_passed, 1, 4096], env={"ASAN_OPTIONS": "detect_leaks=0"})
+                        mm = re.search(r"ERROR: AddressSanitizer: (\S+)", e2)
+                        asan_note = mm.group(1) if mm else f"exit {rc2}"
+                    except Exception as e:
+                        asan_note = "asan build failed: " + str(e)[-100:]
+                    chk.violation(
+                        "alloc-size-wraps-at-65536-pages",
+                        f"module `(memory 1 {mx_decl} shared)`: the generated code calls `{text}`; wasmMemoryAllocate computes "
+                        f"`U32 size = maxPages * 65536` = {m3.group(1)}: the shared memory is allocated with {m3.group(1)} bytes; "
+                        f"a store at byte 4096 is out of the object (ASan: {asan_note})",
+                        {"harness": "tools/harness/grow_sched.c", "args": ["alloc", 1, mx_passed, 1], "observed": out3,
+                         "module": MEMORY_MODULE(mx_decl).hex(), "generated_call": text,
+                         "model": "Props/C18.lean alloc_size_wraps_counterexample",
+                         "replay_cmd": "python3 tools/check.py C18 --replay <this file>"}, True)
+            if header_wraps:
+                chk.notes.append("model note (not a violation: unreachable through the translator when the maxima above are "
+                                 "< 65536): wasmMemoryAllocate(…, 65536, shared) itself still computes a U32 size of 0 "
+                                 "(alloc_size_wraps_counterexample); an embedder calling it directly must not pass 65536")
 
         # ---- (d) ThreadSanitizer, free-running (supporting test)
         if exe:
@@ -345,6 +403,24 @@ def run(tier):
                     chk.notes.append("proposed repair misbehaves on the real compiler output — do not apply it")
             except gen_memfuncs.ExtractFail as e:
                 chk.coverage["repaired_header"] = "not checked: " + str(e)[:200]
+
+        # ---- (f) regressions: the reproducers of the two repaired defects (fixed: 56ef891 / 07872f3)
+        if exe:
+            reg = {}
+            rc, o, _ = gs.run(exe, ["sched", 1, 10, 1, "011100", "g1", "g1"])
+            r = gs.parse_result(o)
+            reg["sched 1 10 1 011100 g1 g1"] = o
+            if not linearizable(1, 10, [("g", 1), ("g", 1)], r["rets"], r["pages"], "011100") \
+                    and not any(v["key"] == "grow-reads-before-lock" for v in chk.violations):
+                chk.violation("grow-reads-before-lock", f"regression: lost update is back (`{o}`)",
+                              {"harness": "tools/harness/grow_sched.c", "args": ["sched", 1, 10, 1, "011100", "g1", "g1"],
+                               "observed": o}, True)
+            rc, o, _ = gs.run(exe, ["seq", 1, 10, 1, 4294967295])
+            reg["seq 1 10 1 4294967295"] = o
+            if not o.startswith("ret 4294967295 ") and not any(v["key"].startswith("grow-wrap") for v in chk.violations):
+                chk.violation("grow-wrap-to-zero-returns-0", f"regression: grow(0xFFFFFFFF) on 1 page returns `{o}`",
+                              {"harness": "tools/harness/grow_sched.c", "args": ["seq", 1, 10, 1, 4294967295], "observed": o}, True)
+            chk.coverage["regressions"] = reg
 
     chk.coverage.update({"hist_" + k: v for k, v in hist.items()})
     chk.coverage["traces_validated_against_impl"] = len(real_out) + len(sreal)
